@@ -20,7 +20,7 @@ for k in ("cat", "substr"): OWNER[k] = "C16"
 for k in ("if", "?:", "and", "or"): OWNER[k] = "C05"
 for k in ("!", "!!"): OWNER[k] = "C06"
 OWNER["log"] = "C17"
-HELPER_OWNER = {"abstract_eq": "C07", "abstract_ne": "C07", "strict_eq": "C08", "strict_ne": "C08", "abstract_lt": "C09",
+HELPER_OWNER = {"strict_eq_same": "C08", "abstract_eq": "C07", "abstract_ne": "C07", "strict_eq": "C08", "strict_ne": "C08", "abstract_lt": "C09",
                 "abstract_gt": "C09", "abstract_lte": "C09", "abstract_gte": "C09", "abstract_max": "C10", "abstract_min": "C10",
                 "parse_float_add": "C10", "parse_float_mul": "C10", "abstract_minus": "C10", "abstract_div": "C10",
                 "abstract_mod": "C10", "to_negative": "C10", "parse_float": "C10", "to_number": "C10", "str_to_number": "C07",
